@@ -98,8 +98,10 @@ theorem EntryOK.bf_core {env : Env} {D : Nat → Prop} {a b : State} {op : Nat} 
     rw [hr, hf]
     exact ⟨ed, locs, hc ed h1, h2, h3, h4.bf B, h5, h6⟩
   input := by
-    obtain ⟨ed, h1, h2, h3⟩ := h.input
-    exact ⟨ed, hc ed h1, h2, Below.bf B h3⟩
+    rcases h.input with ⟨ed, h1, h2, h3⟩ | h0
+    · exact Or.inl ⟨ed, hc ed h1, h2, Below.bf B h3⟩
+    · obtain ⟨ep, erp, d0, hk, -⟩ := h.pnode
+      exact Or.inr (B.stamp p ep h.plt hk h0)
   consec := by
     obtain ⟨ed, h1, h2, h3, h4⟩ := h.consec
     rw [hf]
